@@ -270,7 +270,7 @@ def _ns_higher_logs(chk, src, pe, ft):
                 A2 = sp.Poly(_sym(B[1, 0, 0], ft), Ls)
                 A3 = sp.Poly(_sym(B[2, 0, 0], ft), Ls)
                 g = {m: [_sym(x, ft) for x in pe.call(f"{AD}.unpolarized.space_like.gamma_ns", [(3, 0), 10201, N, m, (0,) * 7, True]).flat()] for m in (nf, nf + 1)}
-            except PERaise as e:
+            except (PERaise, ValueError) as e:   # ValueError: a harmonic sum asked for at an integer moment with a parity flag that contradicts it
                 chk.fail("higher-order-logs-follow-from-rg-invariance", fN.qname, f"{inst}: cannot be evaluated: {e}", where=fN.where, instance=inst)
                 continue
             a2 = {k: A2.coeff_monomial(Ls ** k) for k in range(3)}
@@ -346,7 +346,7 @@ def _singlet_higher_logs(chk, src, pe, ft):
                     G = pe.call(f"{US}.gamma_singlet", [(2, 0), N, m, (0,) * 7, True])
                     ns = pe.call(f"{US}.gamma_ns", [(2, 0), 10101, N, m, (0,) * 7, True]).flat()
                     gam[m] = [gq(sp.Matrix(2, 2, lambda r, c, k=k: num(G[k, int(r), int(c)]))) for k in (0, 1)] + [num(ns[0]), num(ns[1])]
-            except PERaise as e:
+            except (PERaise, ValueError) as e:   # ValueError: a harmonic sum asked for at an integer moment with a parity flag that contradicts it
                 chk.fail("higher-order-logs-follow-from-rg-invariance", fS.qname, f"singlet, {inst}: cannot be evaluated: {e}", where=fS.where, instance=inst)
                 continue
             G0, G1 = emb(gam[nf][0]), emb(gam[nf][1])
